@@ -29,7 +29,7 @@ fn settings(ocsp_fetch: bool) -> serde_json::Value {
 }
 
 /// (file, says revoked for the signer, validly signed by issuer/delegate, about the signer, revocation before signing)
-const RESPONSES: [(&str, bool, bool, bool, bool); 7] = [
+const RESPONSES: [(&str, bool, bool, bool, bool); 10] = [
     ("ocsp_good.der", false, true, true, false),
     ("ocsp_revoked.der", true, true, true, true),
     ("ocsp_revoked_late.der", true, true, true, false),
@@ -37,6 +37,10 @@ const RESPONSES: [(&str, bool, bool, bool, bool); 7] = [
     ("ocsp_other_good.der", false, true, false, false),
     ("ocsp_revoked_foreign.der", true, false, true, true),
     ("ocsp_good_short.der", false, true, true, false),
+    // two SingleResponses in one response
+    ("ocsp_multi_other_then_revoked.der", true, true, true, true),
+    ("ocsp_multi_revoked_then_other.der", true, true, true, true),
+    ("ocsp_multi_other_then_good.der", false, true, true, false),
 ];
 
 /// C40 on the revocation paths: the synchronous and the asynchronous validation of the same
@@ -63,7 +67,7 @@ impl Property for C37 {
         Meta {
             id: "C37",
             level: "exploration",
-            rule: "one evaluation = sign with the pool's end-entity certificate (honest time-stamp token, so the signing time is known) with an OCSP response of the pool - good / revoked before signing / revoked after signing / unknown / about another certificate / revoked but signed by a responder of a foreign hierarchy / short-lived - either stapled by the signer (Signer::ocsp_val) or served by a scripted responder over the simulated wire with verify.ocsp_fetch on (honest, 404, transport error, truncated body), then validate under a simulated clock (inside the response's validity, after it, before it). Oracle: a response that says revoked for the signing certificate, is signed by the issuer's delegated responder and whose revocation time is not after the signing time => never Valid/Trusted; a response about another certificate or signed by a foreign responder => state and failure-code multiset equal those of the same run with no OCSP data; a transport failure while fetching => same as no data; a cancel during FetchingOCSP => OperationCancelled (reported under C23). Distinct = (response kind, delivery, peer behaviour, clock)",
+            rule: "one evaluation = sign with the pool's end-entity certificate (honest time-stamp token, so the signing time is known) with an OCSP response of the pool - good / revoked before signing / revoked after signing / unknown / about another certificate / revoked but signed by a responder of a foreign hierarchy / short-lived / two SingleResponses in one response with the signing certificate's (revoked or good) second or first - either stapled by the signer (Signer::ocsp_val) or served by a scripted responder over the simulated wire with verify.ocsp_fetch on (honest, 404, transport error, truncated body), then validate under a simulated clock (inside the response's validity, after it, before it). Oracle: a response that says revoked for the signing certificate, is signed by the issuer's delegated responder and whose revocation time is not after the signing time => never Valid/Trusted; a response about another certificate or signed by a foreign responder => state and failure-code multiset equal those of the same run with no OCSP data; a transport failure while fetching => same as no data; a cancel during FetchingOCSP => OperationCancelled (reported under C23). Distinct = (response kind, delivery, peer behaviour, clock)",
             assumptions: &["responses are pre-generated with `openssl ocsp` at pool generation time (thisUpdate fixed then); the validator's clock is simulated", "certificate-status assertions as a third carrier are not generated"],
             real: &["crypto::ocsp (response parsing, responder validation, status evaluation), ocsp::fetch, cose validation, ingredient/reader plumbing"],
             stubbed: &["OCSP responder and transport (scripted peer)", "wall clock", "TSA (scripted peer emitting real tokens)"],
@@ -113,7 +117,7 @@ impl Property for C37 {
         let per = 5;
         for c in 0..per {
             let sub = c as u64;
-            let (file, says_revoked, valid_signer, about_signer, revoked_before) = RESPONSES[r.below(7) as usize];
+            let (file, says_revoked, valid_signer, about_signer, revoked_before) = RESPONSES[r.below(RESPONSES.len() as u64) as usize];
             let delivery = r.below(3); // 0 stapled, 1 fetched, 2 fetched + misbehaving peer
             let peer = r.below(4);
             let clock = *r.pick(&[now + 3600, now + 86_400 * 30, now + 86_400 * 365 * 12, gen_at - 86_400 * 30]);
